@@ -19,9 +19,17 @@ import TdModel.Gen.C35
 
 namespace TdModel.C35
 
-/-- `utf16RuneLen` with the two constants regenerated from its body. -/
-def u16 (c : Char) : Nat :=
-  if Facts.C35.surrSelf ≤ c.toNat ∧ c.toNat ≤ Facts.C35.maxRune then 2 else 1
+/-- `utf16RuneLen(v rune) int` — the function body TRANSLATED from the source on every run
+(harness/hc/c35_translate.go); defined on every Go `rune` value, valid scalar or not. -/
+def runeLen (v : Int) : Int := Facts.C35.utf16RuneLen v
+
+/-- UTF-16 width of a character: `utf16RuneLen` on its code point. -/
+def u16 (c : Char) : Nat := (runeLen c.toNat).toNat
+
+/-- What `strings.Builder.WriteRune(r)` appends: `r` itself if it is a Unicode scalar value,
+U+FFFD otherwise (negative, surrogate half, above U+10FFFF). -/
+def charOfRune (r : Int) : Char :=
+  if h : 0 ≤ r ∧ r.toNat.isValidChar then Char.ofNatAux r.toNat h.2 else Char.ofNat 0xFFFD
 
 /-- `ComputeLength`: number of UTF-16 code units. -/
 def u16len : List Char → Nat
@@ -75,7 +83,9 @@ structure St where
 
 inductive Op where
   | plain (s : List Char)                 -- Builder.Plain(s)
-  | write (s : List Char)                 -- Builder.Write / WriteString / WriteRune
+  | write (s : List Char)                 -- Builder.Write / WriteString / WriteByte(ASCII)
+  | writeRune (r : Int)                   -- Builder.WriteRune(r), any int32 incl. invalid code points
+  | reset                                 -- Builder.Reset (also the tail of Raw / Complete): next message
   | format (s : List Char) (fs : List Fmt) -- Builder.Format(s, fs...)
   | token                                 -- t := Builder.Token()
   | apply (k : Nat) (fs : List Fmt)       -- (k-th token).Apply(b, fs...)
@@ -120,6 +130,12 @@ def shrinkPreCode (l : List Ent) : List Ent :=
 def step (s : St) : Op → St
   | .plain p => let s1 := writeString s p; { s1 with lfi := s1.ents.length }
   | .write p => writeString s p
+  | .writeRune r =>
+    { s with text := s.text ++ [charOfRune r], u16 := ((s.u16 : Int) + runeLen r).toNat }
+  -- `Reset` clears message, entities and utf16length; `lengths` and `lastFormatIndex` are NOT
+  -- cleared by the code (kept here too).  Tokens of the previous message are dropped: applying a
+  -- token to another message than the one it was taken from is outside the builder's contract.
+  | .reset => { s with text := [], u16 := 0, ents := [], toks := [] }
   | .format p fs =>
     if p.isEmpty then s
     else writeString (appendEntities s s.u16 (u16len p) (s.text.length, s.text.length + p.length) fs) p
@@ -132,11 +148,10 @@ def step (s : St) : Op → St
 
 def run (ops : List Op) : St := ops.foldl step {}
 
-/-- Clamp one entity to the first `total` UTF-16 code units (`clampEntities`). -/
+/-- Clamp one entity to the first `total` UTF-16 code units: one iteration of the loop of
+`clampEntities`, TRANSLATED from the source (final values of the `Offset` and `Length` fields). -/
 def clamp (total : Int) (e : Ent) : Ent :=
-  let off := if e.off > total then total else e.off
-  let len := if off + e.len > total then total - off else e.len
-  { e with off := off, len := len }
+  { e with off := Facts.C35.clampOff total e.off e.len, len := Facts.C35.clampLen total e.off e.len }
 
 /-- `fixEntities` (repaired): trim trailing white space of the last formatted block when that
 block reaches the end of the message, then clamp *every* entity to the trimmed text. -/
